@@ -192,6 +192,18 @@ class Folder:
             return r.value
         return None
 
+    def run_prefix(self, fnode: ast.FunctionDef, args: Dict[str, Any], stop: Callable[[ast.stmt], bool]) -> Dict[str, Any]:
+        """fold the top-level statements of a function up to (not including) the first one for which `stop` holds; returns the environment"""
+        self.env.update(args)
+        for s in fnode.body:
+            if stop(s):
+                return self.env
+            try:
+                self.stmt(s)
+            except _Return:
+                return self.env
+        return self.env
+
     def block(self, stmts):
         for s in stmts:
             self.stmt(s)
@@ -709,6 +721,8 @@ class Folder:
                 (isinstance(args[0], (int, float)) or (isinstance(args[0], sp.Basic) and args[0].is_number)):
             import math as _m
             return int(_m.ceil(args[0])) if fn.endswith("ceil") else int(_m.floor(args[0]))
+        if fn in ("OrderedDict", "collections.OrderedDict") and len(args) <= 1 and not kwargs:
+            return dict(*args)
         if fn in ("math.log2", "np.log2", "math.log", "math.log10") and len(args) == 1 and isinstance(args[0], (int, float)) and not isinstance(args[0], bool) and args[0] > 0:
             import math as _m
             return getattr(_m, fn.split(".")[1])(args[0])
@@ -738,6 +752,22 @@ class Folder:
                 return _copy.deepcopy(args[0]) if fn != "copy.copy" else _copy.copy(args[0])
             except Exception as ex:
                 raise Undecidable(f"{fn}: {ex}")
+        if fn in ("comb", "scipy.special.comb", "math.comb", "special.comb") and len(args) == 2 and all(isinstance(a, int) and not isinstance(a, bool) for a in args) and \
+                set(kwargs) <= {"exact"}:
+            import math as _m
+            v = _m.comb(args[0], args[1]) if args[0] >= 0 and args[1] >= 0 else 0
+            return v if kwargs.get("exact") or fn == "math.comb" else float(v)
+        if fn in ("itertools.combinations", "itertools.product", "itertools.permutations", "combinations", "product", "permutations") and \
+                all(isinstance(a, (list, tuple, range, str, frozenset, set, IntArray)) or isinstance(a, int) for a in args) and set(kwargs) <= {"repeat"}:
+            import itertools as _it
+            f = getattr(_it, fn.split(".")[-1])
+            seqs = [sorted(a, key=repr) if isinstance(a, (set, frozenset)) else a for a in args]
+            try:
+                return [tuple(x) for x in f(*seqs, **kwargs)]
+            except TypeError as ex:
+                raise Undecidable(f"{fn}: {ex}")
+        if fn in ("np.sum", "numpy.sum") and len(args) == 1 and isinstance(args[0], (list, tuple, IntArray)) and not kwargs:
+            return sum(list(args[0]))
         if fn in ("np.empty", "numpy.empty") and len(args) == 1 and isinstance(args[0], int) and not isinstance(args[0], bool) and set(kwargs) <= {"dtype"}:
             return [None] * args[0]                                      # uninitialised one-dimensional array
         if fn == "format" and len(args) == 2 and isinstance(args[0], (int, float)) and isinstance(args[1], str) and not kwargs:
